@@ -1,6 +1,7 @@
 import Req.Driver.Proto
 import Req.Pool.Dispatch
 import Req.Pool.Tls
+import Req.Pool.TlsFamily
 /-! Driver lanes of C12.
 
 * `c12route <force> <h3> <allowHTTP> <dialTLS> <handshake> <protos> <scheme> <reqH1> <alpn>
@@ -155,6 +156,31 @@ def laneCfg : List String → String
     | _, _, _, _, _, _ => "bad-op"
   | _ => "bad-op"
 
+def pFOp (s : String) : Option FOp :=
+  if s == "fork" then some .fork
+  else if s.startsWith "sw" then (s.drop 2).toString.toNat?.map .switch
+  else (pOp s).map .set
+
+/-- `c12fam <stack> <onlyH1> <host> <issuer> <names> <acceptableCAs> <member> <fops>`: the
+configuration stack `<stack>` of MEMBER `<member>` of the family builds for a new connection
+after the interleaved setters / forks / switches `<fops>` (from `C()`), judged against a
+server certificate of CA `<issuer>` for `<names>`; `cert=` is the client certificate
+presented to a server naming `<acceptableCAs>` (`-` = no list). -/
+def laneFam : List String → String
+  | [stack, onlyH1, host, issuer, names, acc, member, fops] =>
+    match pStack stack, pBool onlyH1, host.toNat?, issuer.toNat?, pDigits names, pDigits acc, member.toNat?,
+      (if fops == "-" then some [] else (fops.splitOn ",").mapM pFOp) with
+    | some s, some o, some h, some iss, some ns, some acc, some m, some os =>
+      match (famRun famInit os).members[m]? with
+      | none => "no-member"
+      | some r =>
+        let eff := effective s o h r
+        let ok := acceptsStd eff.toVerifyCfg ⟨iss, ns⟩
+        let cert := if ok then (match presented eff.certs acc with | some c => toString c | none => "-") else "-"
+        s!"sni={eff.serverName} alpn={sAlpns eff.protos} accept={if ok then 1 else 0} cert={cert}"
+    | _, _, _, _, _, _, _, _ => "bad-op"
+  | _ => "bad-op"
+
 def pSetting : String → Option Setting
   | "f1" => some .forceH1
   | "f2" => some .forceH2
@@ -190,7 +216,8 @@ def lanes : List (String × (List String → String)) := [
   ("c12setu", laneSetU),
   ("c12route", laneRoute),
   ("c12routeu", laneRouteU),
-  ("c12cfg", laneCfg)
+  ("c12cfg", laneCfg),
+  ("c12fam", laneFam)
 ]
 
 end Req.Driver.L.C12
